@@ -104,7 +104,7 @@ class Result:
 
 
 def load_findings(prop: str):
-    p = VERIF / "known_findings.json"
+    p = Path(os.environ.get("VERIF_KNOWN_FINDINGS") or (VERIF / "known_findings.json"))
     if not p.exists():
         return []
     data = json.loads(p.read_text())
